@@ -25,8 +25,9 @@ RULE = ("one run = a history of 1..6 back-to-back transfers on one client; case 
 EXHAUSTIVE_CORE = ("every payload length 0..64 x direction x API path {call, raw stream, buffered stream, "
                    "text stream, typed accessor} x {declared, declared+forced segmentation, undeclared} "
                    "(download) / server style {expedited with size or segmented with size, expedited "
-                   "without size, segmented with size, segmented without size} (upload), as first transfer "
-                   "of a history; chunking, addresses and the rest of the history are seeded")
+                   "without size, segmented with size, segmented without size} (upload), and every 2-way split "
+                   "of every payload of 0..16 bytes through the raw, buffered and text streams, each as first "
+                   "transfer of a history; other chunkings, addresses and the rest of the history are seeded")
 ASSUMPTIONS = [
     "RefSdoServer is my reading of CiA 301 (expedited/segmented): it is the standard-conformant server of the statement",
     "text-mode payloads are printable ASCII plus \\n (TextIOWrapper newline translation is CPython's, not canopen's)",
@@ -63,6 +64,14 @@ def jobs(tier, seed):
                 enum.append((0, li, api, v))
             for s in range(4):
                 enum.append((1, li, api, s))
+    # every 2-way split of the payload (write(a) + write(rest) / read(a) + read-the-rest) for lengths 0..16
+    for li in range(17):
+        for a in range(li + 1):
+            for api in (1, 2, 3):
+                for v in range(3):
+                    enum.append((0, li, api, v, a + 1))
+                enum.append((1, li, api, 2, a + 1))
+                enum.append((1, li, api, 0, a + 1))
     return enum, (400_000 if tier == "quick" else 6_000_000)
 
 
@@ -130,6 +139,11 @@ def _install_od(node, index, sub, kind, ntype):
 def _chunks(ctx, total, small):
     """Split `total` bytes into write()/read() call sizes from the tape."""
     mode = ctx.choice(5, "chunkmode")
+    fs = getattr(ctx, "forced_split", 0)
+    if fs:
+        ctx.forced_split = 0
+        a = min(fs - 1, total)
+        return [c for c in (a, total - a) if c] or [0], "two"
     if mode == 0 or total == 0:
         return [total] if total else [0], "one"
     out = []
@@ -172,6 +186,7 @@ def scenario(ctx):
     first_len = ctx.choice(len(LENS) + 1, "len")
     first_api = ctx.choice(5, "api")
     first_var = ctx.choice(4, "variant")
+    ctx.forced_split = ctx.choice(18, "fsplit")      # 0: seeded chunking; k: first transfer split after k-1 bytes
     ch = world.make_channel(ctx)
     net, bus = world.make_network(ctx, ch, "master")
     node_id = 1 + ctx.choice(127, "node")
@@ -403,6 +418,9 @@ def _upload(ctx, ch, node, srv, index, sub, length, api, style, okind, ntype, sa
     else:
         _install_od(node, index, sub, okind, ntype)
         mode = ctx.choice(6, "readmode")
+        fs = getattr(ctx, "forced_split", 0)
+        ctx.forced_split = 0
+        first_n = fs - 1 if fs else None
         sizes_src = lambda: 1 + ctx.choice(20, "rn")
         buffering = 0 if api == "raw" else _buffering(ctx)
 
@@ -412,7 +430,12 @@ def _upload(ctx, ch, node, srv, index, sub, length, api, style, okind, ntype, sa
             if api == "raw":
                 fp = node.sdo.open(index, sub, "rb", buffering=0)
                 with fp:
-                    if mode in (0, 4, 5):
+                    if first_n is not None:
+                        chunk_class = "two"
+                        if first_n:
+                            out += fp.read(first_n)
+                        out += fp.read()
+                    elif mode in (0, 4, 5):
                         chunk_class = "readall"
                         out += fp.read()
                     elif mode == 1:
@@ -442,7 +465,11 @@ def _upload(ctx, ch, node, srv, index, sub, length, api, style, okind, ntype, sa
             if api == "buffered":
                 fp = node.sdo.open(index, sub, "rb", buffering=buffering)
                 with fp:
-                    if mode == 0:
+                    if first_n is not None:
+                        chunk_class = "two"
+                        out += fp.read(first_n)
+                        out += fp.read()
+                    elif mode == 0:
                         chunk_class = "read()"
                         out += fp.read()
                     elif mode == 1:
@@ -488,7 +515,11 @@ def _upload(ctx, ch, node, srv, index, sub, length, api, style, okind, ntype, sa
             fp = node.sdo.open(index, sub, "r", encoding="ascii", buffering=(1 if ctx.choice(2, "linebuf") else buffering))
             s = []
             with fp:
-                if mode in (0, 5):
+                if first_n is not None:
+                    chunk_class = "two"
+                    s.append(fp.read(first_n))
+                    s.append(fp.read())
+                elif mode in (0, 5):
                     chunk_class = "read()"
                     s.append(fp.read())
                 elif mode in (1, 3):
